@@ -381,5 +381,5 @@ LEVEL_NOTE = ("Trusted: Coq kernel, extraction + OCaml driver, Rust harness and 
               "per-router series parse back exactly (C15_unit_counters_labels_parse, with C19_metrics_labels_safe). NOT modelled: the text writer "
               "(Target::append*) beyond its label sets - the text is checked per run by the independent reader, not proved well-formed; the strict text "
               "format (one HELP/TYPE per name) is departed from: known finding C15-5; the roto-filter branch of process_msg (a Reject would make "
-              "received > processed); of the RIB unit: num_insert_retries (the store's contention count) and the duration gauges - its eight other counters ARE modelled (Rib/RibModel.v ribm_run, theorems C15_rib_*, pipe op MR, known finding C15-6); of the BGP unit: the accept loop's counters (listener bound, connections accepted) - the session's counters (connection lost, disconnects) ARE modelled: BgpSessionModel.bsm_process, theorems C15_bgp_*, engine bgpend op M. See DESIGN.md, design-notes/C15.md and design-notes/E2E.md.")
+              "received > processed); of the RIB unit: num_insert_retries (the store's contention count) and the duration gauges - its eight other counters ARE modelled (Rib/RibModel.v ribm_run, theorems C15_rib_*, pipe op MR, known finding C15-6); of both ingress units: listener_bound_count (the e2e harness waits for its exact value, no theorem); connections accepted ARE modelled (E2eModel uc_accepted / bs_accepted, theorems C15_bmp/bgp_accepted_counts_connections, e2e ops M / BM); of the BGP unit the session's counters (connection lost, disconnects) ARE modelled: BgpSessionModel.bsm_process, theorems C15_bgp_*, engine bgpend op M. See DESIGN.md, design-notes/C15.md and design-notes/E2E.md.")
 TECHNIQUE = "Coq proof by invariant over message histories + model/implementation correspondence on rendered metrics"
